@@ -489,3 +489,46 @@ Proof.
   intros h Hs H3 H4. apply autoinc_fresh_increasing_l.
   destruct (known_class_single h 0 Hs) as [H|[H|H]]; [exact H| |]; unfold known_class in H3, H4; congruence.
 Qed.
+
+(* ------------------------------------------------------------------ narrower id columns *)
+Lemma wrap_s_in_range : forall w x, 0 < w -> in_s w x = true -> wrap_s w x = x.
+Proof.
+  intros w x Hw Hin. unfold in_s in Hin. unfold wrap_s.
+  assert (H2 : 2 ^ w = 2 * 2 ^ (w - 1)).
+  { replace w with (Z.succ (w - 1)) at 1 by lia. rewrite Z.pow_succ_r by lia. reflexivity. }
+  assert (Hp : 0 < 2 ^ (w - 1)) by (apply Z.pow_pos_nonneg; lia).
+  apply andb_true_iff in Hin. destruct Hin as (Hlo & Hhi).
+  apply Z.leb_le in Hlo. apply Z.ltb_lt in Hhi.
+  rewrite Z.mod_small; [ring|]. rewrite H2. split; [|]; generalize dependent (2 ^ (w - 1)); intros; lia.
+Qed.
+
+Lemma trace_w_id : forall w h, 0 < w ->
+  forallb (fun x => in_s w (fst x)) (trace h) = true -> trace_w w h = trace h.
+Proof.
+  intros w h Hw Hall. unfold trace_w. rewrite forallb_forall in Hall.
+  rewrite <- (map_id (trace h)) at 2. apply map_ext_in. intros [v b] Hin.
+  specialize (Hall _ Hin). cbn [fst snd] in *. unfold stored. rewrite wrap_s_in_range by assumption. reflexivity.
+Qed.
+
+Lemma autoinc_fresh_increasing_stored_l : forall w h, 0 < w ->
+  known_class_w w h = 0 -> trace_w w h = trace h /\ fresh_increasing (trace_w w h).
+Proof.
+  intros w h Hw Hk. unfold known_class_w in Hk. cbv zeta in Hk.
+  destruct (Z.eqb_spec (known_class h) 0) as [Hc|Hc]; [|congruence].
+  destruct (forallb (fun x : Z * bool => in_s w (fst x)) (trace h)) eqn:Hall; [|discriminate Hk].
+  rewrite (trace_w_id w h Hw Hall). split; [reflexivity|]. apply autoinc_fresh_increasing_l. exact Hc.
+Qed.
+
+Definition w_class5 : list op :=
+  [Insert [RInt 2147483646] None; Insert [RNull] None; Insert [RNull] None].
+
+Lemma autoinc_refuted_narrow_column_l :
+  exists h, known_class_w 32 h = 5 /\
+    trace h = [(2147483646, false); (2147483647, true); (2147483648, true)] /\
+    trace_w 32 h = [(2147483646, false); (2147483647, true); (-2147483648, true)] /\
+    ~ fresh_increasing (trace_w 32 h).
+Proof.
+  exists w_class5. split; [vm_compute; reflexivity|]. split; [vm_compute; reflexivity|].
+  split; [vm_compute; reflexivity|]. intros Hf. apply fresh_increasing_chk_correct_l in Hf.
+  vm_compute in Hf. discriminate Hf.
+Qed.
